@@ -1,0 +1,13 @@
+//go:build verif
+
+package db
+
+// Contracts checked by /verif (gvc). This file contains comments only and is compiled only with -tags verif.
+
+// ---- db.Patch: an ordered list of put/delete operations; digest = SHA3-256 of its serialisation ----------------------------
+//@ model Patch digest arr
+
+//@ func PatchHash(patch)
+//@   trusted
+//@   ensures result == patch.digest
+//@   modifies nothing
